@@ -55,6 +55,9 @@ CONSTANTS DevRefork,         \* TRUE: a job re-entering after waiting for limits
                              \* is a deserialised copy with the recorded traceback attached, so the
                              \* recover call catch() makes for it has a different argument hash than
                              \* the one made for the original error object
+          DevCseSubtree,     \* TRUE (redun as pinned; fixed): a job answered by CSE (it evaluates no child jobs)
+                             \* contributes only its own task to the subtree task set its ancestors record,
+                             \* so a check_valid="shallow" ancestor is replayed after an edit beneath it
           DevForkAtExec      \* TRUE (as built): a handle's fork key is the number of handle uses of the
                              \* parent *at the time the job first executes*, which depends on when its
                              \* other arguments resolve; FALSE: the key is positional
@@ -64,6 +67,8 @@ VARIABLE DevLostWakeup       \* a renominated job that is then served by collaps
 VARIABLES
   ver,        \* task -> current version (1-based); part of the task hash
   evalTab,    \* backend Evaluation table: set of <<task, ver, arg>> with a recorded single reduction
+  nodeTab,    \* backend CallNode + CallSubtreeTask tables: sequence (oldest first) of
+              \* [id, key, v, sub]; sub = the recorded subtree task set, a set of <<task, version>>
   catchTab,   \* what catch() has stored for "the error was recovered": set of <<guarded task, arg,
               \* version of the recover task, error id>> (keyed by the *name* of the guarded task)
   pc,         \* index into Plan of the current run (0 before the first)
@@ -82,7 +87,7 @@ VARIABLES
   outs,       \* history: outcome record per finished run
   acts        \* history: choices of the current run (for spec -> code replay)
 
-vars == <<DevLostWakeup, pi, ver, evalTab, catchTab, pc, mode, useCache, jobs, evq, running, pend, waiting, used, cse, wf,
+vars == <<DevLostWakeup, pi, ver, evalTab, nodeTab, catchTab, pc, mode, useCache, jobs, evq, running, pend, waiting, used, cse, wf,
           rootval, submitted, outs, acts>>
 
 InSeq(x, s) == \E i \in 1..Len(s) : s[i] = x
@@ -93,6 +98,12 @@ Key(j) == KeyOf(jobs, j)
 TakesHandle(t) == Tasks[t].h = 1
 \* cache_scope of the task: "BACKEND" (default), "CSE" (this execution only), "NONE" (opted out)
 Scope(t) == Tasks[t].scope
+\* check_valid="shallow": the task may be answered by ultimate reduction
+IsSh(t) == Tasks[t].sh = 1
+CurHashes == {<<t, ver[t]>> : t \in TaskNames}
+NoHit == [id |-> <<>>, key |-> <<>>, v |-> 0, sub |-> {}]
+\* _get_call_node: recorded nodes of the call whose recorded subtree tasks are all current (and recorded at all)
+UltNodes(k) == {i \in 1..Len(nodeTab) : nodeTab[i].key = k /\ nodeTab[i].sub # {} /\ nodeTab[i].sub \subseteq CurHashes}
 Fits(t, u) == \A r \in Res : u[r] + Units(t, r) <= Limit(r)
 Kids(j) == {k \in DOMAIN jobs : Len(k) = Len(j) + 1 /\ SubSeq(k, 1, Len(j)) = j}
 Parent(j) == SubSeq(j, 1, Len(j) - 1)
@@ -103,6 +114,9 @@ NewJob(t, arg, ph) ==
    isrec |-> FALSE, for |-> <<0>>,    \* a recover job, and the failed sibling it stands in for
    ck |-> <<>>,                       \* recover job: the catch entry it completes when it resolves
    held |-> FALSE,  \* the job currently holds the units of its limits (consumed, not yet released)
+   sub |-> {},      \* subtree task set of the job (known when it resolves / is rejected)
+   nid |-> <<>>,    \* identity of its call node: <<key, value, identities of the child call nodes>>
+   hit |-> NoHit,   \* the recorded node an ultimate-reduction hit replays
    fk |-> 0,        \* fork key of the handle argument (0: the task takes no handle / not yet forked)
    nf |-> 0]        \* handle_forks counter of this job as a parent
 \* phases: argwait (an argument is still a pending expression), execq (exec event queued),
@@ -118,7 +132,7 @@ StartRun(m, c) ==
 
 Init ==
   /\ pi \in 1..Len(Progs) /\ DevLostWakeup \in DevChoices
-  /\ ver = [t \in TaskNames |-> 1] /\ evalTab = {} /\ catchTab = {} /\ pc = 0 /\ mode = "idle" /\ useCache = TRUE
+  /\ ver = [t \in TaskNames |-> 1] /\ evalTab = {} /\ nodeTab = <<>> /\ catchTab = {} /\ pc = 0 /\ mode = "idle" /\ useCache = TRUE
   /\ jobs = <<>> /\ evq = <<>> /\ running = {} /\ pend = <<>> /\ waiting = <<>>
   /\ used = [r \in Res |-> 0] /\ cse = <<>> /\ wf = "idle" /\ rootval = 0
   /\ submitted = <<>> /\ outs = <<>> /\ acts = <<>>
@@ -179,30 +193,34 @@ Exec(j) ==
   LET J == Preprocessed(j) k == KeyOf(J, j) t == jobs[j].t IN
   IF Scope(t) # "NONE" /\ k \in DOMAIN pend THEN                      \* Collapse
        /\ Served(J, j, "collapsed", jobs[j].cached, <<>>, pend[k])
-       /\ UNCHANGED <<running, pend, used, cse, wf, rootval, submitted, evalTab>>
+       /\ UNCHANGED <<running, pend, used, cse, wf, rootval, submitted, evalTab, nodeTab>>
   ELSE IF Scope(t) # "NONE" /\ k \in DOMAIN cse THEN                  \* HitCSE (value or error)
        /\ Served(J, j, "doneq", "cse", << [ty |-> IF cse[k].ok THEN "done" ELSE "reject", j |-> j] >>, NoTwin)
-       /\ UNCHANGED <<running, pend, used, cse, wf, rootval, submitted, evalTab>>
+       /\ UNCHANGED <<running, pend, used, cse, wf, rootval, submitted, evalTab, nodeTab>>
+  ELSE IF Scope(t) = "BACKEND" /\ CacheAllowed /\ IsSh(t) /\ UltNodes(k) # {} THEN   \* HitUltimate: the newest
+       /\ Served([J EXCEPT ![j].hit = nodeTab[Max(UltNodes(k))]], j, "doneq", "ult",  \* current node's final value
+                 << [ty |-> "done", j |-> j] >>, NoTwin)
+       /\ UNCHANGED <<running, pend, used, cse, wf, rootval, submitted, evalTab, nodeTab>>
   ELSE IF Scope(t) = "BACKEND" /\ CacheAllowed /\ k \in evalTab THEN   \* HitSingle
        /\ Served(J, j, "doneq", "single", << [ty |-> "done", j |-> j] >>, NoTwin)
-       /\ UNCHANGED <<running, pend, used, cse, wf, rootval, submitted, evalTab>>
+       /\ UNCHANGED <<running, pend, used, cse, wf, rootval, submitted, evalTab, nodeTab>>
   ELSE IF mode = "dry" /\ KindOf(t) = "noexec" THEN                   \* dry run, unknown executor: rejected
        /\ jobs' = [J EXCEPT ![j].ph = "doneq"]                        \* (nothing was consumed)
        /\ evq' = Append(Tail(evq), [ty |-> "reject", j |-> j])
-       /\ UNCHANGED <<running, pend, waiting, used, cse, wf, rootval, submitted, evalTab>>
+       /\ UNCHANGED <<running, pend, waiting, used, cse, wf, rootval, submitted, evalTab, nodeTab>>
   ELSE IF mode = "dry" THEN                                           \* DryStop
        /\ jobs' = [J EXCEPT ![j].ph = "drystop"]
        /\ evq' = Tail(evq)
-       /\ UNCHANGED <<running, pend, waiting, used, cse, wf, rootval, submitted, evalTab>>
+       /\ UNCHANGED <<running, pend, waiting, used, cse, wf, rootval, submitted, evalTab, nodeTab>>
   ELSE IF ~Fits(t, used) THEN                                         \* Queue for limits
        /\ jobs' = [J EXCEPT ![j].ph = "waiting", ![j].nom = FALSE] /\ waiting' = Append(waiting, j)
        /\ evq' = Tail(evq)
-       /\ UNCHANGED <<running, pend, used, cse, wf, rootval, submitted, evalTab>>
+       /\ UNCHANGED <<running, pend, used, cse, wf, rootval, submitted, evalTab, nodeTab>>
   ELSE IF KindOf(t) = "noexec" THEN                                   \* RejectNoExecutor: the units were
        /\ jobs' = [J EXCEPT ![j].ph = "doneq", ![j].held = TRUE]      \* consumed, the job is rejected
        /\ used' = [r \in Res |-> used[r] + Units(t, r)]               \* before reaching an executor
        /\ evq' = Append(Tail(evq), [ty |-> "reject", j |-> j])
-       /\ UNCHANGED <<running, pend, waiting, cse, wf, rootval, submitted, evalTab>>
+       /\ UNCHANGED <<running, pend, waiting, cse, wf, rootval, submitted, evalTab, nodeTab>>
   ELSE                                                                \* Submit
        /\ jobs' = [J EXCEPT ![j].ph = "running", ![j].held = TRUE]
        /\ used' = [r \in Res |-> used[r] + Units(t, r)]
@@ -210,7 +228,7 @@ Exec(j) ==
        /\ pend' = IF Scope(t) = "NONE" THEN pend ELSE (k :> j) @@ pend   \* (nobody looks it up for NONE)
        /\ submitted' = Append(submitted, k)
        /\ evq' = Tail(evq)
-       /\ UNCHANGED <<waiting, cse, wf, rootval, evalTab>>
+       /\ UNCHANGED <<waiting, cse, wf, rootval, evalTab, nodeTab>>
 
 (***************************************************************************)
 (* Children of a "calls" job.  Two child expressions of one parent that    *)
@@ -260,7 +278,7 @@ Done(j) ==
       rn == IF holds THEN Renom(waiting, u1, <<>>, <<>>) ELSE <<<<>>, waiting>>
       ready == rn[1]
       \* a CSE hit carries the final value; a single-reduction hit or a fresh result is evaluated
-      hasKids == ~(jobs[j].cached = "cse" \/ KindOf(t) # "calls") /\ Len(CSpecs(t)) > 0
+      hasKids == ~(jobs[j].cached \in {"cse", "ult"} \/ KindOf(t) # "calls") /\ Len(CSpecs(t)) > 0
       nd == IF hasKids THEN Cardinality(DPos(t, parg)) ELSE 0
       spec(idx) == CSpecs(t)[PosOf(t, parg, idx)]
       known(idx) == spec(idx).k # "s"
@@ -283,7 +301,7 @@ Done(j) ==
      /\ evq' = Tail(evq) \o ExecEvs(ready) \o evKids \o evSelf
      \* set_cache: single reduction recorded for fresh results (prov is always on here)
      /\ evalTab' = IF jobs[j].cached = "no" THEN evalTab \cup {Key(j)} ELSE evalTab
-     /\ UNCHANGED <<running, pend, cse, wf, rootval, submitted>>
+     /\ UNCHANGED <<running, pend, cse, wf, rootval, submitted, nodeTab>>
 
 \* the lazy sum ranges over child *positions*: a shared job counts once per position
 SumKids(j) == LET t == jobs[j].t parg == jobs[j].arg IN
@@ -291,12 +309,21 @@ SumKids(j) == LET t == jobs[j].t parg == jobs[j].arg IN
           [i \in 1..Len(CSpecs(t)) |->
              LET c == jobs[Append(j, JobIdx(t, parg, i))] IN
              IF c.ph = "rejected" /\ c.caught THEN jobs[c.rec].res ELSE c.res])
+\* Job.calc_subtree_tasks: a collapsed child was replaced in the parent's child list by the job it collapsed onto
+TargetOf(s) == IF \E jj \in DOMAIN jobs : InSeq(s, jobs[jj].tw)
+               THEN CHOOSE jj \in DOMAIN jobs : InSeq(s, jobs[jj].tw) ELSE s
+\* children that have a call node: finished ones and failed ones (a failed job records its node too)
+HashedKids(j) == {TargetOf(s) : s \in {x \in Kids(j) : jobs[x].ph \in {"resolved", "rejected"}}}
+KidSub(j) == UNION {jobs[s].sub : s \in HashedKids(j)}
+KidIds(j) == {jobs[s].nid : s \in HashedKids(j)}
+OwnHash(j) == <<jobs[j].t, ver[jobs[j].t]>>
 LeafVal(j) == IF KindOf(jobs[j].t) = "const" THEN TVer(jobs[j].t).add ELSE jobs[j].arg + TVer(jobs[j].t).add
 
 Resolve(j) ==
   LET t == jobs[j].t
       k == Key(j)
       val == IF jobs[j].cached = "cse" THEN cse[k].v
+             ELSE IF jobs[j].cached = "ult" THEN jobs[j].hit.v
              ELSE IF KindOf(t) = "calls" /\ Len(CSpecs(t)) > 0 THEN SumKids(j)
              ELSE LeafVal(j)
       par == Parent(j)
@@ -311,14 +338,26 @@ Resolve(j) ==
       parDone == j # <<>> /\ \A s \in Kids(par) \ {j} :
                                jobs[s].ph = "resolved" \/ (jobs[s].ph = "rejected" /\ jobs[s].caught)
       twins == jobs[j].tw
+      \* _resolve_job_main_thread: a job whose call hash came from the cache (CSE, ultimate) evaluated no
+      \* children; its subtree tasks are read from the backend -- as pinned only for shallow tasks
+      sub == IF jobs[j].cached = "ult" THEN jobs[j].hit.sub
+             ELSE IF jobs[j].cached = "cse"
+                  THEN (IF DevCseSubtree /\ ~IsSh(t) THEN {OwnHash(j)} ELSE cse[k].sub)
+             ELSE {OwnHash(j)} \cup KidSub(j)
+      nid == IF jobs[j].cached = "ult" THEN jobs[j].hit.id
+             ELSE IF jobs[j].cached = "cse" THEN cse[k].id
+             ELSE <<k, val, KidIds(j)>>
       jobs1 == [jj \in DOMAIN jobs |->
-                 IF jj = j THEN [jobs[jj] EXCEPT !.ph = "resolved", !.res = val]
+                 IF jj = j THEN [jobs[jj] EXCEPT !.ph = "resolved", !.res = val, !.sub = sub, !.nid = nid]
                  ELSE IF InSeq(jj, depsSeq) THEN [jobs[jj] EXCEPT !.ph = "execq", !.arg = val]
                  ELSE IF InSeq(jj, twins) THEN [jobs[jj] EXCEPT !.ph = "doneq", !.cached = "cse"]
                  ELSE IF parDone /\ jj = par THEN [jobs[jj] EXCEPT !.ph = "resolveq"]
                  ELSE jobs[jj]]
   IN /\ jobs' = jobs1
-     /\ cse' = IF k \in DOMAIN cse THEN cse ELSE (k :> [ok |-> TRUE, v |-> val]) @@ cse
+     /\ cse' = IF k \in DOMAIN cse THEN cse ELSE (k :> [ok |-> TRUE, v |-> val, sub |-> sub, id |-> nid]) @@ cse
+     \* record_call_node: an existing call hash is left as it is (its subtree rows too)
+     /\ nodeTab' = IF jobs[j].cached \in {"cse", "ult"} \/ \E i \in 1..Len(nodeTab) : nodeTab[i].id = nid THEN nodeTab
+                   ELSE Append(nodeTab, [id |-> nid, key |-> k, v |-> val, sub |-> sub])
      /\ pend' = [kk \in {x \in DOMAIN pend : pend[x] # j} |-> pend[kk]]
      /\ evq' = Tail(evq) \o ExecEvs(depsSeq)
                 \o (IF parDone THEN << [ty |-> "resolve", j |-> par] >> ELSE <<>>)
@@ -361,6 +400,8 @@ Reject(j) ==
       jobs1 == [jj \in DOMAIN jobs |->
                  IF InSeq(jj, failing)
                  THEN [jobs[jj] EXCEPT !.ph = "rejected", !.held = FALSE,
+                                       !.sub = {OwnHash(jj)} \cup KidSub(jj),
+                                       !.nid = <<KeyOf(jobs, jj), -1, KidIds(jj)>>,
                                        !.cached = IF jj = j THEN jobs[j].cached ELSE "cse",
                                        !.caught = jj \in caughtSet,
                                        !.rec = IF jj \in caughtSet THEN recPath(jj) ELSE <<0>>]
@@ -371,11 +412,12 @@ Reject(j) ==
                   LET x == CHOOSE y \in caughtSet : recPath(y) = p IN
                   NewRec(errOf(x), x, recKey(x))] @@ jobs1
   IN /\ jobs' = jobs2 /\ used' = u1 /\ waiting' = rn[2]
-     /\ cse' = IF k \in DOMAIN cse THEN cse ELSE (k :> [ok |-> FALSE, v |-> 0]) @@ cse
+     /\ cse' = IF k \in DOMAIN cse THEN cse
+               ELSE (k :> [ok |-> FALSE, v |-> 0, sub |-> {OwnHash(j)} \cup KidSub(j), id |-> <<k, -1, KidIds(j)>>]) @@ cse
      /\ pend' = [kk \in {x \in DOMAIN pend : pend[x] # j} |-> pend[kk]]
      /\ evq' = Tail(evq) \o ExecEvs(ready) \o evs
      /\ wf' = IF InSeq(<<>>, failing) THEN "err" ELSE wf
-     /\ UNCHANGED <<running, submitted, evalTab, rootval>>
+     /\ UNCHANGED <<running, submitted, evalTab, nodeTab, rootval>>
 
 \* observation compared with the real scheduler after every choice (primed: the state just reached)
 ObsP == [used |-> used', running |-> running', waiting |-> waiting', qlen |-> Len(evq'),
@@ -398,7 +440,7 @@ Finish(j) ==
   /\ running' = running \ {j}
   /\ jobs' = [jobs EXCEPT ![j].ph = "doneq"]
   /\ evq' = Append(evq, [ty |-> IF KindOf(jobs[j].t) = "fail" THEN "reject" ELSE "done", j |-> j])
-  /\ UNCHANGED <<DevLostWakeup, pi, pend, waiting, used, cse, wf, rootval, submitted, evalTab, catchTab, ver, pc, mode,
+  /\ UNCHANGED <<DevLostWakeup, pi, pend, waiting, used, cse, wf, rootval, submitted, evalTab, nodeTab, catchTab, ver, pc, mode,
                  useCache, outs>>
   /\ acts' = Append(acts, [c |-> <<"finish", j>>, h |-> "finish", j |-> j, o |-> ObsP])
 
@@ -417,9 +459,9 @@ NextRun ==
        IF st.k = "edit"
        THEN /\ ver' = [ver EXCEPT ![st.t] = IF @ = Len(Tasks[st.t].vers) THEN 1 ELSE @ + 1]
             /\ mode' = "idle" /\ wf' = "idle"
-            /\ UNCHANGED <<evalTab, catchTab, useCache, jobs, evq, running, pend, waiting, used, cse, rootval,
+            /\ UNCHANGED <<evalTab, nodeTab, catchTab, useCache, jobs, evq, running, pend, waiting, used, cse, rootval,
                            submitted, acts>>
-       ELSE /\ StartRun(st.mode, st.cache) /\ UNCHANGED <<ver, evalTab, catchTab>>
+       ELSE /\ StartRun(st.mode, st.cache) /\ UNCHANGED <<ver, evalTab, nodeTab, catchTab>>
 
 Next == Step \/ (\E j \in running : Finish(j)) \/ NextRun
 Spec == Init /\ [][Next]_vars
@@ -499,7 +541,7 @@ DryPredicts ==
        /\ outs[i].res # "err" \/ outs[i + 1].res = "err"
 
 OutsView == [i \in 1..Len(outs) |-> [outs[i] EXCEPT !.acts = <<>>]]
-View == <<DevLostWakeup, pi, ver, evalTab, catchTab, pc, mode, useCache, jobs, evq, running, pend, waiting, used, cse, wf, rootval,
+View == <<DevLostWakeup, pi, ver, evalTab, nodeTab, catchTab, pc, mode, useCache, jobs, evq, running, pend, waiting, used, cse, wf, rootval,
           submitted, OutsView>>
 \* a hang is a terminal state too (the behaviour is replayed up to it)
 Hung == wf = "pending" /\ mode = "real" /\ evq = <<>> /\ running = {}
